@@ -763,7 +763,7 @@ fn base(class: &str) -> &str {
 /// Request kinds whose rows of the generated lock table are NOT rank-increasing (the complement of
 /// `subKinds` in lean/VlsModel/Props/C20.lean; finding F11).  A deadlock in which none of the blocked
 /// requests is of such a kind contradicts `C20_partial` and gets its own violation kind.
-pub const CYCLIC_KINDS: &[&str] = &["forget_channel", "setup_channel", "get_heartbeat", "add_block", "remove_block"];
+pub const CYCLIC_KINDS: &[&str] = &["add_block", "remove_block"];
 
 pub fn describe_deadlock(sc: &Scenario, trace: &[Ev], replies: &[(usize, usize, String)]) -> (String, String) {
     let n = sc.threads.len();
